@@ -128,7 +128,11 @@ def sibling_dispatch(repo, chk, rule):
             tuples.append(('pool', [' '.join(src(a).split()) for a in c.args[0].elts], c))
         if isinstance(c, ast.Call) and isinstance(c.func, ast.Name) and c.func.id == comp:
             tuples.append(('seq', [' '.join(src(a).split()) for a in c.args], c))
+        if isinstance(c, ast.Assign) and isinstance(c.targets[0], ast.Name) and c.targets[0].id == tasks and isinstance(c.value, ast.ListComp) \
+                and isinstance(c.value.elt, ast.Tuple):
+            tuples.append(('pool', [' '.join(src(a).split()) for a in c.value.elt.elts], c.value))
     need(len(tuples) == 2, 'expected one pooled task tuple and one sequential computator call, found %d' % len(tuples))
+    tuples.sort(key=lambda t: t[0])
     ok = tuples[0][1] == tuples[1][1]
     chk.ob(rule, fi, tuples[1][2], 'sequential and pooled branches call computator with the same arguments', ok,
            '%s vs %s' % (tuples[0][1], tuples[1][1]), construct='dispatch arguments')
@@ -137,14 +141,14 @@ def sibling_dispatch(repo, chk, rule):
     chk.ob(rule, fi, sm[0] if sm else fi.node, 'the pool runs the same computator over the task tuples, results in task order (starmap)', ok,
            construct='pool starmap')
     # both loops enumerate zip(ids, images) identically
-    loops = [l for l in ast.walk(fi.node) if isinstance(l, ast.For) and isinstance(l.iter, ast.Call) and dotted(l.iter.func) == 'enumerate'
+    loops = [l for l in ast.walk(fi.node) if isinstance(l, (ast.For, ast.comprehension)) and isinstance(l.iter, ast.Call) and dotted(l.iter.func) == 'enumerate'
              and 'zip(%s, %s)' % (ids, imgs) in src(l.iter)]
     chk.ob(rule, fi, loops[0] if loops else fi.node, 'both branches enumerate zip(ids, images)', len(loops) == 2,
            construct='dispatch loops')
     # Computator.__call__ unpacks the same order
     cc = repo.func(PF + ':Computator.__call__')
     want = [a for a in cc.params if a != 'self']
-    got = tuples[1][1]
+    got = [t for t in tuples if t[0] == 'seq'][0][1]
     # roles of the loop variables of the sequential dispatch loop
     pm = {}
     for p_ in ast.walk(fi.node):
